@@ -629,5 +629,9 @@ pub fn tame_path_counts(mut g: GraphCase, max_n: u8) -> GraphCase {
     if g.n > max_n && matches!(g.shape, 4 | 5 | 6 | 9 | 10 | 12 | 13) {
         g.shape = 2;
     }
+    // the bundle of shape 13 doubles its path count every two nodes: 2^12 routes at 27 nodes
+    if g.shape == 13 && g.n > 27 {
+        g.n = 27;
+    }
     g
 }
